@@ -367,6 +367,9 @@ class C18(Base):
         return None
 
     def predicate(self, case, impl_obs):
+        if "SYNC-API-DISAGREE" in impl_obs:
+            return ("a bundle set obtained before a mode change no longer answers its synchronous request API from the state it "
+                    "was created in: " + impl_obs[impl_obs.index("SYNC-API-DISAGREE"):][:160])
         return self.walk(case, impl_obs)
 
     def nontrivial(self, case, impl_obs):
